@@ -38,7 +38,8 @@ ALGS = ["PowerMethod", "GradientMethod", "GradientMethod-acc", "GradientMethod-b
         "AugmentedLagrangianMethod", "ADMM", "SDMM", "SDMM-norm", "NewtonsMethod",
         "NewtonsMethod-bt", "GerchbergSaxton", "GradientMethod-sol0"]
 APPS = ["MaxEig", "LLS-CG", "LLS-GM", "LLS-PDHG", "LLS-PDHG-smallsigma", "LLS-ADMM",
-        "L2ConstrainedMinimization", "SenseRecon", "EspiritCalib", "TotalVariationRecon"]
+        "L2ConstrainedMinimization", "SenseRecon", "EspiritCalib", "TotalVariationRecon",
+        "JsenseRecon", "L1WaveletRecon"]
 MAXITERS = [0, 1, 2, 7, 50]
 
 
@@ -363,6 +364,14 @@ def run_app(case):
             app = mr.app.SenseRecon(ksp, mps, lamda=0.01, **kw)
         else:
             app = mr.app.TotalVariationRecon(ksp, mps, 0.01, **kw)
+    elif name == "L1WaveletRecon":
+        mps = crandn(rng, [3, 8, 8])
+        ksp = crandn(rng, [3, 8, 8])
+        app = mr.app.L1WaveletRecon(ksp, mps, 0.01, **kw)
+    elif name == "JsenseRecon":
+        ksp = crandn(rng, [3, 12, 12])
+        app = mr.app.JsenseRecon(ksp, mps_ker_width=4, ksp_calib_width=8, max_iter=mi,
+                                 max_inner_iter=3, show_pbar=False)
     elif name == "EspiritCalib":
         ksp = crandn(rng, [3, 12, 12])
         app = mr.app.EspiritCalib(ksp, calib_width=8, kernel_width=3, show_pbar=False,
@@ -380,7 +389,7 @@ def run_app(case):
     # returns the solution the algorithm holds
     if name == "MaxEig":
         ok = out == top.max_eig
-    elif name == "EspiritCalib":
+    elif name in ("EspiritCalib", "JsenseRecon"):
         ok = isinstance(out, np.ndarray)
     else:
         ok = out is app.x and np.array_equal(np.asarray(out), np.asarray(top.x))
@@ -389,7 +398,7 @@ def run_app(case):
                         wit, mech="output:" + name)
     obs = {"updates": nup, "early": int(nup < mi)}
     tags = []
-    if nup < mi and name != "EspiritCalib":
+    if nup < mi and name not in ("EspiritCalib", "JsenseRecon"):
         tags.append("early-stop:" + name)
         if not getattr(top, "not_positive_definite", False):
             hold = [top.x] + ([top.u] if hasattr(top, "u") and isinstance(
